@@ -404,6 +404,22 @@ func injectorCallErrors(fset *token.FileSet, pos token.Pos, name string, calls [
 					fmt.Errorf("inject %s: value %s can't be used: %v", name, ts, err)))
 			}
 		}
+		// The generated code names the provider function, the struct type and
+		// its fields: they must be visible from the injector's package.
+		if c.pkg != nil && c.pkg.Path() != pkgPath {
+			names := []string{c.name}
+			if c.kind == structProvider {
+				names = append(names, c.fieldNames...)
+			}
+			for _, n := range names {
+				if c.kind != valueExpr && !ast.IsExported(n) {
+					ts := types.TypeString(c.out, nil)
+					ec.add(notePosition(
+						fset.Position(pos),
+						fmt.Errorf("inject %s: provider for %s can't be used: %s is not exported by package %s", name, ts, n, c.pkg.Name())))
+				}
+			}
+		}
 	}
 	return ec.errors
 }
